@@ -22,6 +22,15 @@ class _ShimInv(T.ShimNP):
     class _LA:
         @staticmethod
         def inv(M):
+            # a diagonal matrix is inverted entry by entry (the triangular builder divides the eigenvector columns by the scale factors
+            # this way); the inverse of a full matrix (`Cinv = inv(C)`) stays opaque — the model has its own inverse
+            n = len(M)
+            ent = [[T.Sym.lift(M[i][j]) for j in range(n)] for i in range(n)]
+            if all(ent[i][j].is_const() and ent[i][j].val == 0 for i in range(n) for j in range(n) if i != j):
+                out = T._obj_full((n, n), 0)
+                for i in range(n):
+                    out[i, i] = T.Sym.const(1) / ent[i][i]
+                return out
             return M
 
         @staticmethod
@@ -118,6 +127,57 @@ def gen(ctx):
     except Exception as ex:
         ctx.broken.append(("trace:normal-form", repr(ex)))
         ctx.obligations["trace:normal-form"] = False
+    # ---- triangular points: J*Hess(H2), d_omega, scale factors, eigenvector matrix and normal form
+    #      (variables: 0 a, 1 omega1, 2 omega2, 3 omega_z, 4 s1, 5 s2, 6 s3; `a` itself as a function of mu, variable 0 = mu)
+    trivars = {"a": 0, "w1": 1, "w2": 2, "wz": 3, "s1": 4, "s2": 5, "s3": 6}
+    try:
+        tcls = lib._TriangularDynamicsService
+        T.reset()
+        a = T.Sym.var("a", -1.2674)
+        J = T.retarget(tcls._J_hess_H2, shim=_ShimInv())(T.Proxy(tcls, dict(a=a), shim=_ShimInv()))
+        txt += E.re_fun("triJhess", [T.Sym.lift(J[i, j]) for i in range(6) for j in range(6)], trivars)
+        T.reset()
+        a, w1, w2, wz = T.Sym.var("a", -1.2674), T.Sym.var("w1", 0.9545), T.Sym.var("w2", -0.2982), T.Sym.var("wz", 1.0)
+        fake = T.Proxy(tcls, dict(a=a, linear_modes=(w1, w2, wz)), shim=_ShimInv())
+        sq = []
+        for idx in (0, 1):
+            e = T.Sym.lift(T.retarget(tcls._compute_scale_factor)(fake, idx))
+            if e.op != "sqrt":
+                raise ValueError("triangular scale factor %d is not a square root" % idx)
+            sq.append(e.args[0])
+            txt += E.re_def("triS%dsq" % (idx + 1), e.args[0], trivars)
+        s3 = T.Sym.lift(T.retarget(tcls._compute_scale_factor)(fake, 2))
+        if not s3.is_const():
+            raise ValueError("vertical scale factor is not a constant")
+        txt += "def triS3 : Int × Nat := %s\n" % rat(Fraction(float(s3.val)))
+        if T.CTX.path:
+            raise ValueError("triangular scale factors branch on their data")
+        T.reset()
+        a, w1, w2, wz = T.Sym.var("a", -1.2674), T.Sym.var("w1", 0.9545), T.Sym.var("w2", -0.2982), T.Sym.var("wz", 1.0)
+        sv = [T.Sym.var("s1", 1.1), T.Sym.var("s2", 0.7), T.Sym.var("s3", 1.0)]
+        fake = T.Proxy(tcls, dict(a=a, linear_modes=(w1, w2, wz), scale_factor=lambda i: sv[i]), shim=_ShimInv())
+        Ct, _ = T.retarget(tcls._build_normal_form, shim=_ShimInv())(fake)
+        tent = [T.Sym.lift(Ct[i, j]) for i in range(6) for j in range(6)]
+        txt += E.re_fun("triC", tent, trivars)
+        # the only data-dependent decision allowed: abs(omega_z) with omega_z > 0
+        extra_paths = [(op, T.show(x, 40), T.show(y, 20), o) for op, x, y, o in T.CTX.path if T.show(x, 40) != "wz"]
+        if extra_paths:
+            raise ValueError("triangular normal form branches on its data: %r" % (extra_paths,))
+        TR["triC"], TR["triS1sq"], TR["triS2sq"] = tent, sq[0], sq[1]
+        for k, tc in ((4, lib._L4DynamicsService), (5, lib._L5DynamicsService)):
+            T.reset()
+            mu4 = T.Sym.var("mu", 0.0121505856)
+            fk = T.Proxy(tc, dict(mu=mu4))
+            txt += "def sign%d : Int := %d\n" % (k, int(tc.sign.fget(fk)))
+            av = T.Sym.lift(T.retarget(tc.a.fget)(fk))
+            named4, defs4 = T.canonical_sqrt_names([av], "tq%d_" % k)
+            for name, rep in defs4:
+                txt += E.re_def(name, rep, {"mu": 0})
+            txt += E.re_def("a%d" % k, av, {"mu": 0}, named4)
+            TR["a%d" % k] = av
+    except Exception as ex:
+        ctx.broken.append(("trace:triangular-normal-form", repr(ex)))
+        ctx.obligations["trace:triangular-normal-form"] = False
     # ---- the search brackets as functions of mu (variables: 0 = mu, 1 = h with h^3 = mu/3), both branches of the min() -----
     try:
         for k, cls in classes.items():
@@ -387,5 +447,26 @@ def validate_traces(ctx):
                     ctx.broken.append(("trace-validation:" + nm, "traced formula %r differs from the live object (mu=%r, L%d): %r vs %r" % (nm, mu, k, a, b)))
                     ctx.obligations["trace-validation:" + nm] = False
                     return
+    if "triC" in TR:
+        for mu in (0.0121505856, 3.0034e-6, 0.03):
+            sysm = System.from_mu(mu)
+            for k in (4, 5):
+                dyn = sysm.get_libration_point(k).dynamics
+                w1, w2, wz = [float(v) for v in dyn.linear_modes]
+                s = [float(dyn.scale_factor(i)) for i in range(3)]
+                av = float(dyn.a)
+                env = {"a": av, "w1": w1, "w2": w2, "wz": wz, "s1": s[0], "s2": s[1], "s3": s[2]}
+                C = np.asarray(dyn.normal_form_transform[0], dtype=float)
+                checks = [("triC[%d,%d]" % (i, j), T.evalf(TR["triC"][6 * i + j], env), float(C[i, j])) for i in range(6) for j in range(6)]
+                checks += [("triS1sq", T.evalf(TR["triS1sq"], env), s[0] ** 2), ("triS2sq", T.evalf(TR["triS2sq"], env), s[1] ** 2),
+                           ("a%d" % k, T.evalf(TR["a%d" % k], {"mu": mu}), av)]
+                for nm, x, y in checks:
+                    err = abs(x - y) / (1 + abs(y))
+                    worst = max(worst, err)
+                    ctx.traces_validated += 1
+                    if not err <= 1e-11:
+                        ctx.broken.append(("trace-validation:" + nm, "traced formula %r differs from the live object (mu=%r, L%d): %r vs %r" % (nm, mu, k, x, y)))
+                        ctx.obligations["trace-validation:" + nm] = False
+                        return
     ctx.obligations["trace-validation"] = True
     ctx.extra["trace_validation_worst_rel_err"] = worst
